@@ -122,7 +122,7 @@ def observe(fn, *a, **kw):
 TRACE_CFG = "INIT TInit\nNEXT TNext\nINVARIANT TReport\nCHECK_DEADLOCK FALSE\n"
 
 
-def validate(ctx, module, traces, env=None, shards=4, workers=2, timeout=900, tag="", cfg=None):
+def validate(ctx, module, traces, env=None, shards=4, workers=2, timeout=900, tag="", cfg=None, allclauses=False):
     """Validate `traces` (list of event lists) with spec/<module>.tla.
 
     Returns a list, one entry per trace: None if accepted, else {"event": l, "clause": name}.
@@ -141,7 +141,7 @@ def validate(ctx, module, traces, env=None, shards=4, workers=2, timeout=900, ta
         path = os.path.join(ctx.scratch, "traces-%s%s-%d.json" % (module, tag, si))
         with open(path, "w") as f:
             json.dump(traces[lo:hi], f)
-        e = {"TRACE_FILE": path}
+        e = {"TRACE_FILE": path, "ALLCLAUSES": "1" if allclauses else "0"}
         e.update(env or {})
         r = tlc.run(module, cfg or TRACE_CFG, ctx.scratch, env=e, workers=workers, timeout=timeout,
                     name="%s%s-%d" % (module, tag, si))
@@ -157,11 +157,17 @@ def validate(ctx, module, traces, env=None, shards=4, workers=2, timeout=900, ta
                                      % (module, r.violated, r.stdout[-2000:]))
             acc = {p[1] for p in r.printed("ACCEPT")}
             fails = {}
+            allf = {}
             for p in r.printed("FAIL"):
                 # <<"FAIL", tid, l, clause>>
                 t = p[1]
+                allf.setdefault(t, set()).add(p[3])
                 if t not in fails or p[2] < fails[t]["event"]:
                     fails[t] = {"event": p[2], "clause": p[3]}
+            if allclauses:
+                for t, f in fails.items():
+                    f["clauses"] = sorted(allf[t])
+                acc = set()          # in diagnostic mode evaluation continues after a failing clause: ACCEPT lines mean nothing
             for k in range(hi - lo):
                 t = k + 1
                 if t in acc and t not in fails:
@@ -170,6 +176,8 @@ def validate(ctx, module, traces, env=None, shards=4, workers=2, timeout=900, ta
                     results[lo + k] = fails[t]
                 elif t in acc and t in fails:
                     # some nondeterministic branch failed but another one reached the end: accepted
+                    results[lo + k] = None
+                elif allclauses:
                     results[lo + k] = None
                 else:
                     results[lo + k] = {"event": -1, "clause": "no-matching-action"}
@@ -256,26 +264,28 @@ def trace_mutation(ctx, part, accepted, per_trace=2, sample=100):
     def one(k):
         try:
             v, _ = validate(ctx, part.trace_module, [muts[k]], env=part.trace_env, cfg=getattr(part, "trace_cfg", None),
-                            shards=1, workers=1, tag="-mut-%s-%d" % (part.name, k))
+                            shards=1, workers=1, tag="-mut-%s-%d" % (part.name, k), allclauses=True)
             return v[0]
         except MachineryError:
             return {"event": -2, "clause": "TLC-ERROR"}
     with ThreadPoolExecutor(max_workers=12) as ex:
         verdicts = list(ex.map(one, range(len(muts))))
-    hist, accepted_desc = {}, {}
+    hist, accepted_desc, nrej = {}, {}, 0
     for v, d in zip(verdicts, descs):
         if v is None:
             key = d.split("@")[1] + ":" + d.split("@")[0].split(":")[1].split(".")[0]
             accepted_desc[key] = accepted_desc.get(key, 0) + 1
         else:
-            hist[v["clause"]] = hist.get(v["clause"], 0) + 1
+            nrej += 1
+            for cl in v.get("clauses", [v["clause"]]):
+                hist[cl] = hist.get(cl, 0) + 1
     out = os.path.join(VERIF, "out", "tracemut")
     os.makedirs(out, exist_ok=True)
     with open(os.path.join(out, "%s-%s.json" % (ctx.pid, part.name)), "w") as f:
         json.dump({"property": ctx.pid, "part": part.name, "module": part.trace_module, "mutations": len(muts),
-                   "rejected": sum(hist.values()), "rejected_by_clause": hist, "accepted_by_field": accepted_desc}, f, indent=1, sort_keys=True)
+                   "rejected": nrej, "rejected_by_clause": hist, "accepted_by_field": accepted_desc}, f, indent=1, sort_keys=True)
     ctx.say("tracemut %s/%s: %d corruptions, %d rejected by %d different clauses, %d accepted"
-            % (ctx.pid, part.name, len(muts), sum(hist.values()), len(hist), len(muts) - sum(hist.values())))
+            % (ctx.pid, part.name, len(muts), nrej, len(hist), len(muts) - nrej))
 
 
 # ----------------------------------------------------------------------------------------------
